@@ -63,7 +63,14 @@ Print Assumptions C10_word_toolkit_x86_64_asm.
 Theorem C10_masked_keys : forall o, In o mkey_obls -> fn_correct o.
 Proof. exact (fn_obl_sound _ mkey_ok). Qed.
 Print Assumptions C10_masked_keys.
-Example C10_coverage : List.length mword_c64_obls = 12 /\ List.length mword_x86_obls = 12 /\ List.length mkey_obls = 18.
+(* masked states (five masked words) over the C64 word toolkit: ascon_xN_randomize keeps every value and moves
+   every share of every word by its own fresh word; ascon_xN_copy_from_xM (also in place, as the AEAD code uses
+   it) keeps every value.  The word-toolkit lists above also contain the share-count conversions xN_from_xM
+   with distinct and with aliased operands. *)
+Theorem C10_masked_states : forall o, In o mstate_obls -> fn_correct o.
+Proof. exact (fn_obl_sound _ mstate_ok). Qed.
+Print Assumptions C10_masked_states.
+Example C10_coverage : List.length mword_c64_obls = 24 /\ List.length mword_x86_obls = 24 /\ List.length mkey_obls = 18 /\ List.length mstate_obls = 18.
 Proof. vm_compute. repeat split. Qed.
 
 (* share algebra (layout-free), any number of shares, any tape *)
@@ -84,6 +91,13 @@ Theorem C10_key_history n key tape rounds : 1 <= n -> bytes_ok key -> (List.leng
   fst (mk_history n key tape rounds) = key /\ Forall (fun e => fst e = key) (snd (mk_history n key tape rounds)).
 Proof. exact (mk_history_keys n key tape rounds). Qed.
 Print Assumptions C10_key_history.
+
+(* any list of words (e.g. the five words of a masked state) masked with n >= 1 shares from any tape and
+   re-randomised any number of times keeps its values *)
+Theorem C10_state_history n ws tape rounds : 1 <= n ->
+  fst (mws_history n ws tape rounds) = ws /\ Forall (fun e => fst e = ws) (snd (mws_history n ws tape rounds)).
+Proof. exact (mws_history_values n ws tape rounds). Qed.
+Print Assumptions C10_state_history.
 
 Example C10_nonvacuous :
   mk_history 3 (map N.of_nat (seq 1 20)) [5; 0; 7; 7; 1; 2]%N 1 =
